@@ -122,6 +122,9 @@ TrIter ==
   /\ fl' = [fl EXCEPT !.next = @ /\ E.out = "ok", !.bor = @ /\ BorOK(present, guards)]
   /\ UNCHANGED <<tab, present, guards, first, addr, val>> /\ Same
 
+\* position (in first-registration order) behind the entry the property expects next
+PassedPos(it) == LET i == NextPos(DeclTab(first), present, it.pos) IN (IF i = 0 THEN Len(first) ELSE i) + 1
+
 TrNext ==
   /\ Is("next")
   /\ LET h == E.h
@@ -143,12 +146,47 @@ TrNext ==
         \* a panicking next() has passed the entry it panicked on (the one the property expects
         \* next); the same iterator stays alive and is pulled again later in the history
         /\ iters' = IF E.out = "some"
-                    THEN Ext(iters, h, [k |-> it.k, pos |-> it.pos + 1, y |-> Append(it.y, E.tag)])
+                    THEN Ext(iters, h, [k |-> it.k, pos |-> PassedPos(it), y |-> Append(it.y, E.tag)])
                     ELSE IF E.out = "none" THEN iters
                     ELSE LET exp == Expected(first, present)  n == Len(it.y) + 1 IN
-                         Ext(iters, h, [k |-> it.k, pos |-> it.pos + 1,
+                         Ext(iters, h, [k |-> it.k, pos |-> PassedPos(it),
                                         y |-> IF n <= Len(exp) THEN Append(it.y, exp[n]) ELSE it.y])
   /\ UNCHANGED <<tab, present, first, addr>> /\ Same
+
+\* the iterator consumed through a std adapter (nth / skip / step_by / take / last / count): the
+\* items handed out must be the sub-sequence of plain iteration the adapter selects (WalkOK), each
+\* the very object of its own type; items handed out stay borrowed, dropped ones do not
+TrWalk ==
+  /\ Is("walk")
+  /\ LET h == E.h
+         known == h \in DOMAIN iters
+         it == IF known THEN iters[h] ELSE [k |-> E.k, pos |-> 1, y |-> <<>>]
+         w == Walk(DeclTab(first), present, guards, it, PlanOf(E.how, E.n, E.m), <<>>)
+         cell(i) == <<E.items[i].tag, 0>>
+         genuine(i) == cell(i) \in present /\ cell(i) \in DOMAIN addr /\ E.items[i].aout = addr[cell(i)]
+         obs == [i \in DOMAIN E.items |-> Out("some", E.items[i].tag, IF genuine(i) THEN cell(i) ELSE NoObj)]
+         exp(i) == IF it.k = "w" THEN Bump(cell(i)[1], val[cell(i)]) ELSE val[cell(i)]
+         gs2 == [g \in DOMAIN guards \cup {E.items[i].g : i \in DOMAIN E.items} |->
+                   IF \E i \in DOMAIN E.items : E.items[i].g = g
+                   THEN LET i == CHOOSE i \in DOMAIN E.items : E.items[i].g = g IN
+                        [t |-> E.items[i].tag, d |-> 0, k |-> it.k, src |-> "item"]
+                   ELSE guards[g]]
+     IN /\ fl' = [fl EXCEPT !.next = @ /\ known /\ WalkOK(first, present, guards, it, E.how, E.n, E.m, obs, E.end)
+                                      /\ (E.how = "count" /\ E.end = "none" => E.cnt = Len(w.items)),
+                            !.same = @ /\ \A i \in DOMAIN E.items : (cell(i) \in DOMAIN val => E.items[i].v = exp(i)),
+                            !.bor = @ /\ BorOK(present, gs2)]
+        /\ guards' = gs2
+        /\ val' = [c \in DOMAIN val |-> IF it.k = "w" /\ \E i \in DOMAIN E.items : cell(i) = c
+                                         THEN Bump(c[1], val[c]) ELSE val[c]]
+        /\ iters' = Ext(iters, h, w.it)
+  /\ UNCHANGED <<tab, present, first, addr>> /\ Same
+
+\* Iterator::size_hint
+TrHint ==
+  /\ Is("hint")
+  /\ LET known == E.h \in DOMAIN iters IN
+     fl' = [fl EXCEPT !.next = @ /\ known /\ HintOK(first, present, iters[E.h], E.lo, E.hi, E.hashi)]
+  /\ UNCHANGED <<vars, addr, val>>
 
 TrIdrop ==
   /\ Is("idrop")
@@ -156,12 +194,12 @@ TrIdrop ==
   /\ fl' = [fl EXCEPT !.bor = @ /\ BorOK(present, guards)]
   /\ UNCHANGED <<tab, present, guards, first, addr, val>> /\ Same
 
-Known == {"reset", "reg", "ins", "rem", "fetch", "drop", "get", "getmut", "iter", "next", "idrop"}
+Known == {"reset", "reg", "ins", "rem", "fetch", "drop", "get", "getmut", "iter", "next", "idrop", "walk", "hint"}
 TrSkip ==
   /\ l <= Len(Rec) /\ E.ev \notin Known /\ l' = l + 1
   /\ UNCHANGED <<vars, addr, val, fl>>
 
-TNext == TrReset \/ TrReg \/ TrIns \/ TrRem \/ TrFetch \/ TrDrop \/ TrGet \/ TrIter \/ TrNext \/ TrIdrop \/ TrSkip
+TNext == TrReset \/ TrReg \/ TrIns \/ TrRem \/ TrFetch \/ TrDrop \/ TrGet \/ TrIter \/ TrNext \/ TrWalk \/ TrHint \/ TrIdrop \/ TrSkip
 Spec == TInit /\ [][TNext]_tvars
 
 \* ---- property invariants ------------------------------------------------------
